@@ -279,6 +279,21 @@ add("C02", "fixed", "escape:AssertionError@utils/html.py:strip_tags", "strip_htm
 add("C02", "fixed", "escape:NameError@extra/filters/translate.py:BaseTranslateFilter.format_message", "(introduced and repaired in this round) fix f54087a used TranslationValueError without importing it; C02 caught it on the next run",
     [c02("{{ '50%' | t }}")], "c36566a")
 
+# ----------------------------------------------------------------------------- C15 fixed
+add("C15", "fixed", "render:explicit-argument-or-bound-variable-not-visible:no-render-arguments-and-no-globals",
+    "RenderContext replaced a falsy (still empty) globals mapping by a new dict; the render tag adds its bound variable to that mapping after the copy, so '{% render 'p' with x %}' lost x "
+    "whenever the template was rendered without arguments and the environment had no globals",
+    [{"kind": "visible", "call_index": 0, "data": {}, "env_globals": False, "async": False}, {"kind": "visible", "call_index": 2, "data": {}, "env_globals": False, "async": True}], "07f45a6")
+for _label, _i in (("render-kwargs", 0), ("render-with-alias", 1), ("render-for", 2), ("macro-arg", 3), ("extends-block", 4)):
+    add("C15", "fixed", f"render:nested-render-sees-enclosing-{_label}-arguments",
+        "an isolated render context chained its namespace onto the *parent* context's globals, which inside a rendered partial / macro include that partial's own arguments and inside an "
+        "inherited block the base template's locals: '{% render 'outer', a: 1 %}' with outer = '{% render 'inner' %}' let inner read a",
+        [{"kind": "nested", "outer_index": _i, "inner_call": "{% render 'q' %}", "async": False}], "448839a")
+add("C15", "fixed", "render:include-not-disabled:inside-inherited-block",
+    "'{% render 'child' %}' where child extends a base template let include run inside child's blocks (the block scoped context copy started with no disabled tags)",
+    [{"kind": "render", "call_kind": "plain", "call": "{% render 'p' %}", "body": [["read", "a"]], "mid_loop": False, "globals": {"g1": "G1", "g2": "G2"}, "variants": [{"binds": [], "withs": [], "loopvar": "c", "mid_loop": False}],
+      "probe_disabled": True, "include_wrappers": [], "include_call": "{% render 'pchild' %}", "async": False}], "efe752a")
+
 if __name__ == "__main__":
     # further entries are appended by tools/mkfindings.py from triaged replay files and kept in findings_extra.json
     extra_path = os.path.join(VERIF, "tools", "findings_extra.json")
